@@ -234,6 +234,8 @@ CHECKS = [
 ]
 
 MUTANTS = [
+    dict(name="revert F18 fix (objects named by obj.name)", file="fileops.py", old='                child_path = path.rstrip("/") + "/" + key',
+         new='                child_path = child.name', checks=["history"]),
     dict(name="revert F4 fix (is_cooler raises on a missing path)", file="fileops.py", old="        if grouppath not in f:\n            return False\n", new="", checks=["history"]),
     dict(name="mv keeps the source", file="fileops.py", old="                if rename:\n                    del src[src_group]", new="                if False:\n                    del src[src_group]", checks=["history"]),
     dict(name="cp into an existing file truncates it", file="fileops.py", old='    if not os.path.isfile(dst_path) or overwrite:', new='    if True:', checks=["history"]),
